@@ -1,5 +1,7 @@
 import BFL.Model.UT
 import BFL.Model.KF
+import BFL.Model.KFHist
+import BFL.Model.UKFHist
 import BFL.Bridge.Mat
 import BFL.Proofs.UT
 import BFL.Proofs.UTKF
@@ -234,5 +236,226 @@ example : ∃ (fac : ℚ → Mat ℚ 1 1 → Mat ℚ 1 1) (pred : GM ℚ 1 1),
   ext a b
   simp [utWeights, utLambda, Matrix.mul_apply, toM]
   norm_num
+
+
+/-! ## Histories: the unscented filter and the Kalman filter through the same linear-Gaussian history -/
+
+set_option linter.unusedSectionVars false
+
+/-- Guards of one step, read off the belief the Kalman filter holds before it: the unscented
+    parameters are admissible for the dimension the step's transform works in (`n`, or `n + nz` in the
+    augmented variants) and the square-root routine factorises the covariances it is applied to. -/
+def LGStep.Guard (fac : (d : Nat) → α → Mat α d d → Mat α d d) (alpha beta kappa : α)
+    (s : LGStep α n) (prev pred : GM α n k) : Prop :=
+  (s.skipPred = false → s.skipState = false →
+    match s.noise with
+    | .additive _ => (n : α) + utLambda n alpha kappa ≠ 0 ∧ ∀ i, FacOn (fac n) (utWeights n alpha beta kappa).c (prev.cov i)
+    | .augmented nz _ Q => ((n + nz : ℕ) : α) + utLambda (n + nz) alpha kappa ≠ 0 ∧
+        ∀ i, FacOn (fac (n + nz)) (utWeights (n + nz) alpha beta kappa).c ((augmentWithNoise prev Q).cov i)) ∧
+  (s.skipCorr = false → ∀ z, s.meas = some z →
+    match z.noise with
+    | .additive _ => (n : α) + utLambda n alpha kappa ≠ 0 ∧ ∀ i, FacOn (fac n) (utWeights n alpha beta kappa).c (pred.cov i)
+    | .augmented nz _ R => ((n + nz : ℕ) : α) + utLambda (n + nz) alpha kappa ≠ 0 ∧
+        ∀ i, FacOn (fac (n + nz)) (utWeights (n + nz) alpha beta kappa).c ((augmentWithNoise pred R).cov i))
+
+/-- the guards along a whole history (on the Kalman trajectory) -/
+def GuardAlong (fac : (d : Nat) → α → Mat α d d → Mat α d d) (inv : (m : Nat) → Mat α m m → Mat α m m)
+    (alpha beta kappa : α) : KFFilter α n k → List (LGStep α n) → Prop
+  | _, [] => True
+  | st, s :: rest =>
+    s.Guard fac alpha beta kappa st.corr (kfFilterStep inv st s.toKF).pred ∧
+    GuardAlong fac inv alpha beta kappa (kfFilterStep inv st s.toKF) rest
+
+/-- two beliefs with the same means and covariances (weights may differ) -/
+def GM.SameStats (a b : GM α n k) : Prop := a.mean = b.mean ∧ a.cov = b.cov
+
+theorem GM.SameStats.trans' {a b c : GM α n k} (h1 : a.SameStats b) (h2 : b.SameStats c) : a.SameStats c :=
+  ⟨h1.1.trans h2.1, h1.2.trans h2.2⟩
+
+theorem GM.SameStats.symm' {a b : GM α n k} (h : a.SameStats b) : b.SameStats a := ⟨h.1.symm, h.2.symm⟩
+
+theorem augmentWithNoise_cov_congr {nz : ℕ} (a b : GM α n k) (Q : Mat α nz nz) (h : a.cov = b.cov) (i : Fin k) :
+    (augmentWithNoise a Q).cov i = (augmentWithNoise b Q).cov i := by
+  simp [augmentWithNoise, h]
+
+theorem kfPredict_sameStats (F Q : Mat α n n) (e : Option (Vec α n → Vec α n)) (a b out out' : GM α n k)
+    (h : a.SameStats b) : (kfPredict F Q e a out).SameStats (kfPredict F Q e b out') := by
+  obtain ⟨hm, hc⟩ := h
+  constructor <;> funext i <;> simp [kfPredict, hm, hc]
+
+theorem kfCorrect_sameStats {m : ℕ} (inv : Mat α m m → Mat α m m) (H : Mat α m n) (R : Mat α m m) (y : Vec α m)
+    (a b out out' : GM α n k) (h : a.SameStats b) :
+    (kfCorrect inv H R y a out).SameStats (kfCorrect inv H R y b out') := by
+  obtain ⟨hm, hc⟩ := h
+  constructor <;> funext i <;> simp [kfCorrect, hm, hc]
+
+theorem ukf_hist_predict (fac : (d : Nat) → α → Mat α d d → Mat α d d) (alpha beta kappa : α)
+    (s : LGStep α n) (uprev kprev kout : GM α n k) (hs : uprev.SameStats kprev)
+    (hg : s.skipPred = false → s.skipState = false →
+      match s.noise with
+      | .additive _ => (n : α) + utLambda n alpha kappa ≠ 0 ∧ ∀ i, FacOn (fac n) (utWeights n alpha beta kappa).c (kprev.cov i)
+      | .augmented nz _ Q => ((n + nz : ℕ) : α) + utLambda (n + nz) alpha kappa ≠ 0 ∧
+          ∀ i, FacOn (fac (n + nz)) (utWeights (n + nz) alpha beta kappa).c ((augmentWithNoise kprev Q).cov i)) :
+    (gaussianPredict s.skipPred uprev (ukfHistPredictStep fac alpha beta kappa s uprev)).SameStats
+      (kfGaussPredict s.toKF kprev kout) := by
+  unfold gaussianPredict kfGaussPredict
+  by_cases h1 : s.skipPred
+  · simp only [h1, LGStep.toKF, if_true]; exact hs
+  · by_cases h2 : s.skipState
+    · simp only [h1, h2, LGStep.toKF, Bool.false_eq_true, if_false, if_true]
+      unfold ukfHistPredictStep
+      cases hn : s.noise <;> simp [ukfPredictAdditive, ukfPredictAugmented, h2] <;> exact hs
+    · have h1' : s.skipPred = false := by simpa using h1
+      have h2' : s.skipState = false := by simpa using h2
+      have hg' := hg h1' h2'
+      simp only [h1', h2', LGStep.toKF, Bool.false_eq_true, if_false]
+      unfold ukfHistPredictStep KFHStep.effExo
+      simp only [Bool.false_eq_true, if_false]
+      refine (?_ : GM.SameStats _ (kfPredict s.F s.noise.eff (s.u.map fun u _ => u) uprev kout)).trans' (kfPredict_sameStats _ _ _ _ _ _ _ hs)
+      cases hn : s.noise with
+      | additive Q =>
+        rw [hn] at hg'
+        have hf : ∀ i, FacOn (fac n) (utWeights n alpha beta kappa).c (uprev.cov i) := by
+          intro i; rw [hs.2]; exact hg'.2 i
+        simp only [LGNoise.eff, h2']
+        cases hu' : s.u with
+        | none =>
+          simp only [LGStep.offset, hu', Option.getD_none, Option.map_none]
+          constructor <;> funext i
+          · exact (ukf_predict_eq_kf_plain (fac n) alpha beta kappa hg'.1 s.F Q uprev kout hf i).1
+          · exact (ukf_predict_eq_kf_plain (fac n) alpha beta kappa hg'.1 s.F Q uprev kout hf i).2
+        | some u =>
+          simp only [LGStep.offset, hu', Option.getD_some, Option.map_some]
+          constructor <;> funext i
+          · exact (ukf_predict_eq_kf (fac n) alpha beta kappa hg'.1 s.F Q u uprev kout hf i).1
+          · exact (ukf_predict_eq_kf (fac n) alpha beta kappa hg'.1 s.F Q u uprev kout hf i).2
+      | augmented nz G Q =>
+        rw [hn] at hg'
+        have hf : ∀ i, FacOn (fac (n + nz)) (utWeights (n + nz) alpha beta kappa).c ((augmentWithNoise uprev Q).cov i) := by
+          intro i; rw [augmentWithNoise_cov_congr uprev kprev Q hs.2 i]; exact hg'.2 i
+        simp only [LGNoise.eff, h2']
+        cases hu' : s.u with
+        | none =>
+          simp only [LGStep.offset, hu', Option.getD_none, Option.map_none]
+          have e : ∀ out : GM α n k, (kfPredict s.F ((G.mul Q).mul G.transpose) none uprev out).SameStats
+              (kfPredict s.F ((G.mul Q).mul G.transpose) (some fun _ => Vec.zero) uprev out) := by
+            intro out
+            constructor <;> funext i
+            · apply Vec.ext; intro r; simp [kfPredict, propagateMean, Vec.zero]
+            · rfl
+          refine GM.SameStats.trans' ?_ (e kout).symm'
+          constructor <;> funext i
+          · exact (ukf_predict_augmented_eq_kf (fac (n + nz)) alpha beta kappa hg'.1 s.F G Q Vec.zero uprev kout hf i).1
+          · exact (ukf_predict_augmented_eq_kf (fac (n + nz)) alpha beta kappa hg'.1 s.F G Q Vec.zero uprev kout hf i).2
+        | some u =>
+          simp only [LGStep.offset, hu', Option.getD_some, Option.map_some]
+          constructor <;> funext i
+          · exact (ukf_predict_augmented_eq_kf (fac (n + nz)) alpha beta kappa hg'.1 s.F G Q u uprev kout hf i).1
+          · exact (ukf_predict_augmented_eq_kf (fac (n + nz)) alpha beta kappa hg'.1 s.F G Q u uprev kout hf i).2
+
+theorem ukf_hist_correct (fac : (d : Nat) → α → Mat α d d → Mat α d d) (inv : (m : Nat) → Mat α m m → Mat α m m)
+    (alpha beta kappa : α) (s : LGStep α n) (upred uout kpred kout : GM α n k) (hs : upred.SameStats kpred)
+    (hg : s.skipCorr = false → ∀ z, s.meas = some z →
+      match z.noise with
+      | .additive _ => (n : α) + utLambda n alpha kappa ≠ 0 ∧ ∀ i, FacOn (fac n) (utWeights n alpha beta kappa).c (kpred.cov i)
+      | .augmented nz _ R => ((n + nz : ℕ) : α) + utLambda (n + nz) alpha kappa ≠ 0 ∧
+          ∀ i, FacOn (fac (n + nz)) (utWeights (n + nz) alpha beta kappa).c ((augmentWithNoise kpred R).cov i)) :
+    (if s.skipCorr then upred else ukfHistCorrectStep fac inv alpha beta kappa s upred uout).SameStats
+      (kfGaussCorrect inv s.toKF kpred kout) := by
+  unfold kfGaussCorrect
+  by_cases h1 : s.skipCorr
+  · simp only [h1, LGStep.toKF, if_true]; exact hs
+  · have h1' : s.skipCorr = false := by simpa using h1
+    simp only [h1', LGStep.toKF, Bool.false_eq_true, if_false]
+    unfold ukfHistCorrectStep
+    cases hz : s.meas with
+    | none => simpa using hs
+    | some z =>
+      have hg' := hg h1' z hz
+      simp only [Option.map_some, LGMeas.toKF]
+      refine (?_ : GM.SameStats _ (kfCorrect (inv z.m) z.H z.noise.eff z.y upred uout)).trans' (kfCorrect_sameStats _ _ _ _ _ _ _ _ hs)
+      cases hn : z.noise with
+      | additive R =>
+        rw [hn] at hg'
+        have hf : ∀ i, FacOn (fac n) (utWeights n alpha beta kappa).c (upred.cov i) := by
+          intro i; rw [hs.2]; exact hg'.2 i
+        have := ukf_correct_eq_kf (fac n) (inv z.m) alpha beta kappa hg'.1 z.H R z.y upred uout hf
+        simp only [LGNoise.eff]
+        exact ⟨funext this.1, funext this.2.1⟩
+      | augmented nz D R =>
+        rw [hn] at hg'
+        have hf : ∀ i, FacOn (fac (n + nz)) (utWeights (n + nz) alpha beta kappa).c ((augmentWithNoise upred R).cov i) := by
+          intro i; rw [augmentWithNoise_cov_congr upred kpred R hs.2 i]; exact hg'.2 i
+        have := ukf_correct_augmented_eq_kf (fac (n + nz)) (inv z.m) alpha beta kappa hg'.1 z.H D R z.y upred uout hf
+        simp only [LGNoise.eff]
+        exact ⟨funext this.1, funext this.2.1⟩
+
+/-- **UKF = KF over whole histories.**  A `GaussianFilter` built from `UKFPrediction` +
+    `UKFCorrection` and one built from `KFPrediction` + `KFCorrection`, started from beliefs with the
+    same means and covariances and driven through the same linear-Gaussian history — any length, time-varying
+    `F`, noises, exogenous inputs and measurement models of any dimension, every step in the additive or in
+    the augmented variant (mixed freely), any skip flags, steps with and without measurement — hold, after
+    every history, predicted and corrected beliefs with the same means and covariances, for every parameter
+    triple and square-root routine meeting the guards along the (Kalman) trajectory and **every** inverse
+    routine.  By induction over the history from the single-step theorems. -/
+theorem ukf_history_eq_kf (fac : (d : Nat) → α → Mat α d d → Mat α d d) (inv : (m : Nat) → Mat α m m → Mat α m m)
+    (alpha beta kappa : α) (steps : List (LGStep α n)) (ust : UKFFilter α n k) (kst : KFFilter α n k)
+    (h0 : ust.corr.SameStats kst.corr) (hg : GuardAlong fac inv alpha beta kappa kst steps) :
+    (ukfFilterRun fac inv alpha beta kappa ust steps).corr.SameStats (kfFilterRun inv kst (steps.map LGStep.toKF)).corr ∧
+    (steps ≠ [] →
+      (ukfFilterRun fac inv alpha beta kappa ust steps).pred.SameStats (kfFilterRun inv kst (steps.map LGStep.toKF)).pred) := by
+  induction steps generalizing ust kst with
+  | nil => exact ⟨h0, fun h => absurd rfl h⟩
+  | cons s rest ih =>
+    obtain ⟨g1, g2⟩ := hg
+    have hp : (ukfFilterStep fac inv alpha beta kappa ust s).pred.SameStats (kfFilterStep inv kst s.toKF).pred :=
+      ukf_hist_predict fac alpha beta kappa s ust.corr kst.corr kst.pred h0 g1.1
+    have hc : (ukfFilterStep fac inv alpha beta kappa ust s).corr.SameStats (kfFilterStep inv kst s.toKF).corr :=
+      ukf_hist_correct fac inv alpha beta kappa s _ ust.corr _ kst.corr hp g1.2
+    obtain ⟨i1, i2⟩ := ih (ukfFilterStep fac inv alpha beta kappa ust s) (kfFilterStep inv kst s.toKF) hc g2
+    simp only [ukfFilterRun, kfFilterRun, List.map_cons, List.foldl_cons] at i1 i2 ⊢
+    refine ⟨i1, fun _ => ?_⟩
+    cases rest with
+    | nil => simpa using hp
+    | cons a l => exact i2 (by simp)
+
+/-- The likelihood both filters report after a history that ends with a completed correction is the
+    same: it is computed from the innovations and innovation covariances of the last step, which coincide
+    (`ukf_correct_eq_kf` / `ukf_correct_augmented_eq_kf`, last component) because the predicted beliefs do. -/
+theorem ukf_history_likelihood_args (fac : (d : Nat) → α → Mat α d d → Mat α d d) (inv : (m : Nat) → Mat α m m → Mat α m m)
+    (alpha beta kappa : α) (steps : List (LGStep α n)) (s : LGStep α n) (ust : UKFFilter α n k) (kst : KFFilter α n k)
+    (h0 : ust.corr.SameStats kst.corr) (hg : GuardAlong fac inv alpha beta kappa kst (steps ++ [s]))
+    (z : LGMeas α n) (_hz : s.meas = some z) (i : Fin k) :
+    kfInnovation z.H z.y ((ukfFilterRun fac inv alpha beta kappa ust (steps ++ [s])).pred.mean i)
+      = kfInnovation z.H z.y ((kfFilterRun inv kst ((steps ++ [s]).map LGStep.toKF)).pred.mean i) ∧
+    kfS z.H ((ukfFilterRun fac inv alpha beta kappa ust (steps ++ [s])).pred.cov i) z.noise.eff
+      = kfS z.H ((kfFilterRun inv kst ((steps ++ [s]).map LGStep.toKF)).pred.cov i) z.noise.eff := by
+  have h := (ukf_history_eq_kf fac inv alpha beta kappa (steps ++ [s]) ust kst h0 hg).2 (by simp)
+  rw [h.1, h.2]; exact ⟨rfl, rfl⟩
+
+/-- Non-vacuity of the history theorem: a one-step additive history over ℚ (`n = m = 1`, `α = 1`, `β = 2`,
+    `κ = 0`, `F = H = 1`, `Q = 3`, `R = 1`, `P₀ = 1`, hence `P⁻ = 4`; the factor routine returns the exact
+    square roots `1`, `2` of the two covariances it meets) satisfies all guards. -/
+example : ∃ (fac : (d : Nat) → ℚ → Mat ℚ d d → Mat ℚ d d) (inv : (m : Nat) → Mat ℚ m m → Mat ℚ m m)
+    (kst : KFFilter ℚ 1 1) (s : LGStep ℚ 1),
+    s.skipPred = false ∧ s.skipCorr = false ∧ s.meas.isSome ∧ GuardAlong fac inv 1 2 0 kst [s] := by
+  let one11 : Mat ℚ 1 1 := Mat.of (fun _ _ => 1)
+  let g1 : GM ℚ 1 1 := { mean := fun _ => Vec.of (fun _ => 1), cov := fun _ => one11, weight := Vec.of (fun _ => 1) }
+  refine ⟨fun d _ P => Mat.of (fun i j => if P i j = 4 then 2 else 1), fun _ S => S,
+    { pred := g1, corr := g1, last := none },
+    { F := one11, u := none, noise := .additive (Mat.of (fun _ _ => 3)), skipPred := false, skipState := false,
+      meas := some { m := 1, H := one11, y := Vec.of (fun _ => 2), noise := .additive one11 }, skipCorr := false },
+    rfl, rfl, rfl, ?_⟩
+  refine ⟨⟨fun _ _ => ⟨by norm_num [utLambda], fun i => ?_⟩, fun _ z hz => ?_⟩, trivial⟩
+  · unfold FacOn
+    ext a b
+    simp [utWeights, utLambda, Matrix.mul_apply, toM, g1, one11]
+  · cases hz
+    refine ⟨by norm_num [utLambda], fun i => ?_⟩
+    unfold FacOn
+    ext a b
+    simp [utWeights, utLambda, Matrix.mul_apply, toM, g1, one11, kfFilterStep, kfGaussPredict, LGStep.toKF, kfPredict,
+      kfPredictCov, LGNoise.eff, Mat.mul_apply, fsum, Fin.foldl_succ, Fin.foldl_zero]
+    norm_num
 
 end BFL
